@@ -71,6 +71,22 @@ E('C38', 'Complete entry-by-entry differential of the single configuration: sche
          'output/schema.py and gristTypes.ts defaults vs usertypes defaults.',
   tech='complete differential over one configuration (degenerate space)', cat='other')
 
+H('C15', 'All histories over the trigger world (every trigger formula counts its own recalculations): '
+         'three-valued reference model MUST/MUST-NOT/explicit per (row, trigger column, bundle).')
+E('C22', '19 type objects x a catalogue of 352 adversarial values (plus list/tuple wrappings; thorough: '
+         'all two-step chains): convert never raises, result is right-type / same error / alt-text, '
+         'and converting again is the identity.')
+E('C32', 'Grids (all small grids; tall grids of 99..102/150 rows with one deviating row at every position '
+         'class, incl. wider rows after the header sample) x dialects x header flag, written with '
+         'csv.writer and read by import_csv.parse_file; strict equality with the expected table.')
+E('C33', 'Every JSON value of depth <= 2 (+ a restricted depth-3 family) x include/exclude filters; an '
+         'inverse mapping rebuilt from the produced tables must reproduce the input.')
+E('C40', 'Every expression of depth <= 2/3 of the supported grammar (rendered by an own renderer) plus 41 '
+         'unsupported constructs x 12 contexts: strict-JSON tree, equal to the spec tree, interpreter of '
+         'node semantics agrees with Python eval in 3 environments; unsupported -> SyntaxError.')
+E('C41', 'Tables of <= 3 rows x 2 Any columns over hashable and unhashable values x 1607 queries x '
+         'formulas/private flags on a live engine; rows and column kinds vs an independent model.')
+
 PLANNED = {}
 
 
